@@ -66,16 +66,20 @@ def run(tier, rng, C):
                 inline.append(('m', [(S('t'), tv_in)]))
                 refd.append(('m', [(S('t'), tv_ref)]))
         refd[0] = ('m', refd[0][1] + helpers)
+        if rng.random() < 0.4:
+            # the layered parameter is also consumed through a member lookup (the on-the-fly walk
+            # through its layers), in both twins
+            look = (S('look'), S('${t:n:%s}' % rng.choice('xyz') if nest else '${t:%s}' % rng.choice('xyz')))
+            inline[0] = ('m', inline[0][1] + [look])
+            refd[0] = ('m', refd[0][1] + [look])
         a, b = C.case_id('i', i), C.case_id('r', i)
         cases.append({'id': a, 'line': V.stack_line(a, 'value', inline), 'show': V.stack_show(inline), 'nontrivial': False})
         cases.append({'id': b, 'line': V.stack_line(b, 'value', refd), 'show': V.stack_show(refd), 'nontrivial': True, 'twin': a})
 
     def get_t(o):
         v = C.canon_value(o)
-        for k, x, _ in v[1]:
-            if k == ('str', 't'):
-                return x
-        return ('<none>',)
+        d = {k[1]: x for k, x, _ in v[1] if k and k[0] == 'str'}
+        return (d.get('t', ('<none>',)), d.get('look', ('<none>',)))
 
     def oracle(cases, mobs, iobs):
         fails = []
@@ -95,6 +99,6 @@ def run(tier, rng, C):
         return fails
     rule = ('%d metamorphic twin pairs: a stack of 2-5 layers of key t (mappings with ~/= members, lists, scalars, null; top level '
             'or nested one level) and the same stack with a random subset of layers replaced by references to helper keys '
-            'holding the layer (30%% through a second reference); oracle: both fail or both render t identically; plus '
+            'holding the layer (30%% through a second reference); oracle: both fail or both render t (and a member lookup ${t:x} into it, in 40%% of the pairs) identically; plus '
             'model/impl comparison on every case; non-trivial = the twin with reference layers' % n)
     return C.standard_run(cases, rule, key_fn=lambda c, m, i, r: 'model-impl-differ', extra_oracle=oracle)
